@@ -39,7 +39,14 @@ Definition keys_agree (d : document) : bool :=
 Definition known (S : schema) (n : name) : bool := match kind_of S n with Some _ => true | None => false end.
 Definition no_entity (S : schema) : bool := negb (known S s_Entity).
 Definition is_object_b (S : schema) (a : name) : bool := match kind_of S a with Some KObject => true | _ => false end.
-Definition sub_b (S : schema) (a b : name) : bool := bytes_eqb a b || (is_object_b S a && cond_holds S a b).
+Definition is_interface_b (S : schema) (a : name) : bool := match kind_of S a with Some KInterface => true | _ => false end.
+(* every runtime type of a field declared with type [a] is a runtime type of [b]: same name; [a] an object
+   type that passes for [b]; or both interfaces, [a] passes for [b] and every type that lists [a] in its
+   implements clause lists [b] too *)
+Definition sub_b (S : schema) (a b : name) : bool :=
+  bytes_eqb a b || (is_object_b S a && cond_holds S a b) ||
+  (is_interface_b S a && is_interface_b S b && cond_holds S a b &&
+   forallb (fun t => implb (mem_bytes a (td_implements t)) (mem_bytes b (td_implements t))) (s_types S)).
 Definition fields_ok (S : schema) (tdS tdO : type_def) : bool :=
   forallb (fun fdS => match find_field (fd_name fdS) (td_fields tdO) with
                       | Some fdO => sub_b S (named_of (fd_type fdO)) (named_of (fd_type fdS))
@@ -108,11 +115,28 @@ Section Static.
     inversion Ek as [Ek']. rewrite Ek' in Hc. rewrite Bool.orb_false_r in Hc. apply bytes_eqb_eq. exact Hc.
   Qed.
 
+  Lemma interface_inv : forall a, is_interface_b S a = true ->
+      exists ta, builtin_scalar a = false /\ find_type a (s_types S) = Some ta /\ td_kind ta = KInterface.
+  Proof.
+    intros a H. unfold is_interface_b, kind_of in H. destruct (builtin_scalar a); [discriminate|].
+    destruct (find_type a (s_types S)) as [ta|]; [|discriminate]. exists ta. split; [reflexivity|]. split; [reflexivity|].
+    destruct (td_kind ta); try discriminate. reflexivity.
+  Qed.
+
   Lemma sub_b_sound : forall a b R, sub_b S a b = true -> cond_holds S R a = true -> cond_holds S R b = true.
   Proof.
-    intros a b R H Ha. unfold sub_b in H. apply Bool.orb_true_iff in H. destruct H as [H|H].
+    intros a b R H Ha. unfold sub_b in H. apply Bool.orb_true_iff in H. destruct H as [H|H]; [apply Bool.orb_true_iff in H; destruct H as [H|H]|].
     - apply bytes_eqb_eq in H. subst. exact Ha.
     - apply andb_prop in H. destruct H as [Ho Hc]. rewrite (object_applies R a Ho Ha). exact Hc.
+    - apply andb_prop in H. destruct H as [H H4]. apply andb_prop in H. destruct H as [H H3]. apply andb_prop in H. destruct H as [H1 H2].
+      destruct (interface_inv a H1) as [ta [Ba [Fa Ka]]]. destruct (interface_inv b H2) as [tb [Bb [Fb Kb]]].
+      unfold cond_holds, kind_of in Ha |- *. rewrite Ba, Fa in Ha. rewrite Bb, Fb.
+      unfold type_applies in Ha. rewrite Fa, Ka in Ha. apply Bool.orb_true_iff in Ha. destruct Ha as [Ha|Ha].
+      + apply bytes_eqb_eq in Ha. subst R. unfold cond_holds, kind_of in H3. rewrite Bb, Fb in H3. exact H3.
+      + destruct (find_type R (s_types S)) as [o|] eqn:Fo; [|discriminate].
+        destruct (find_type_In _ _ _ Fo) as [Ino _]. rewrite forallb_forall in H4. specialize (H4 o Ino).
+        rewrite Ha in H4. cbn [implb] in H4.
+        unfold type_applies. rewrite Fb, Kb, Fo, H4. apply Bool.orb_true_r.
   Qed.
 
   Lemma field_type_known : forall tn f t', field_type S tn f = Some t' -> known S tn = true.
